@@ -309,9 +309,20 @@ fn str_hwaddr(ost: Option<String>) -> Result<Option<Vec<u8>>, Error> {
     .map_err(|e| Error::InvalidConfig(e.to_string()))
 }
 
+/// A prefix cannot be longer than the address it is a prefix of.
+fn check_prefixlen(prefixlen: u8, max: u8) -> Result<u8, Error> {
+    if prefixlen <= max {
+        Ok(prefixlen)
+    } else {
+        Err(Error::InvalidConfig(format!(
+            "Prefix length {} is longer than {} bits",
+            prefixlen, max
+        )))
+    }
+}
+
 /// Parses a prefix of the form IP/prefixlen.
 /// IP can be v4 or v6.
-/// Currently no error handling on prefixlen is done.
 fn str_prefix(ost: Option<String>) -> Result<Option<Prefix>, Error> {
     Ok(ost
         .map(|st| {
@@ -328,11 +339,11 @@ fn str_prefix(ost: Option<String>) -> Result<Option<Prefix>, Error> {
                 match str_ip(Some(sections[0].into())) {
                     Ok(Some(std::net::IpAddr::V4(ip4))) => Ok(Some(Prefix::V4(Prefix4 {
                         addr: ip4,
-                        prefixlen,
+                        prefixlen: check_prefixlen(prefixlen, 32)?,
                     }))),
                     Ok(Some(std::net::IpAddr::V6(ip6))) => Ok(Some(Prefix::V6(Prefix6 {
                         addr: ip6,
-                        prefixlen,
+                        prefixlen: check_prefixlen(prefixlen, 128)?,
                     }))),
                     Err(e) => Err(e),
                     Ok(None) => Ok(None),
@@ -344,7 +355,6 @@ fn str_prefix(ost: Option<String>) -> Result<Option<Prefix>, Error> {
 }
 
 /// Parses a prefix of the form IPv4/prefixlen.
-/// Currently no error handling on prefixlen is done.
 fn str_prefix4(ost: Option<String>) -> Result<Option<Prefix4>, Error> {
     Ok(ost
         .map(|st| {
@@ -361,7 +371,7 @@ fn str_prefix4(ost: Option<String>) -> Result<Option<Prefix4>, Error> {
                 match str_ip4(Some(sections[0].into())) {
                     Ok(Some(ip4)) => Ok(Some(Prefix4 {
                         addr: ip4,
-                        prefixlen,
+                        prefixlen: check_prefixlen(prefixlen, 32)?,
                     })),
                     Err(e) => Err(e),
                     Ok(None) => Ok(None),
@@ -373,7 +383,6 @@ fn str_prefix4(ost: Option<String>) -> Result<Option<Prefix4>, Error> {
 }
 
 /// Parses a prefix of the form IPv6/prefixlen.
-/// Currently no error handling on prefixlen is done.
 fn str_prefix6(ost: Option<String>) -> Result<Option<Prefix6>, Error> {
     Ok(ost
         .map(|st| {
@@ -390,7 +399,7 @@ fn str_prefix6(ost: Option<String>) -> Result<Option<Prefix6>, Error> {
                 match str_ip6(Some(sections[0].into())) {
                     Ok(Some(ip6)) => Ok(Some(Prefix6 {
                         addr: ip6,
-                        prefixlen,
+                        prefixlen: check_prefixlen(prefixlen, 128)?,
                     })),
                     Err(e) => Err(e),
                     Ok(None) => Ok(None),
